@@ -14,6 +14,9 @@ import (
 
 	"github.com/emersion/go-message/textproto"
 	"github.com/emersion/go-smtp"
+	"github.com/foxcpp/go-mockdns"
+	"github.com/foxcpp/maddy/internal/smtpconn/pool"
+	"github.com/foxcpp/maddy/internal/target/remote"
 	"github.com/foxcpp/maddy/framework/buffer"
 	"github.com/foxcpp/maddy/framework/config"
 	"github.com/foxcpp/maddy/framework/log"
@@ -39,6 +42,7 @@ type hop struct {
 	l    net.Listener
 	lmtp bool
 	utf8 bool
+	na   bool // log the final-dot result per recipient (TBodyNA): the client is a PartialDelivery
 	tr   *vtrace.Tracer
 	plan []scripted.AttemptPlan
 	id   func(string) string
@@ -202,7 +206,28 @@ func (h *hop) handle(c net.Conn) {
 				if res == "" {
 					res = "ok"
 				}
-				tr.Emit("TBody", vtrace.Ev{"att": att, "res": res})
+				h.mu.Lock()
+				na := h.na
+				h.mu.Unlock()
+				if na && res == "ok" {
+					// a per-recipient plan over an SMTP hop: the first scripted non-ok status is the
+					// result of the whole DATA command
+					for _, r := range acc {
+						if st := plan.Status[r]; st != "" && st != "ok" {
+							res = st
+							break
+						}
+					}
+				}
+				if na {
+					st := map[string]interface{}{}
+					for _, r := range acc {
+						st[r] = res
+					}
+					tr.Emit("TBodyNA", vtrace.Ev{"att": att, "st": st})
+				} else {
+					tr.Emit("TBody", vtrace.Ev{"att": att, "res": res})
+				}
 				if res == "ok" {
 					tr.Emit("TCommit", vtrace.Ev{"att": att, "res": "ok"})
 				} else {
@@ -277,7 +302,11 @@ func (h *hop) handle(c net.Conn) {
 	}
 }
 
-func runReal(t *testing.T, b Behaviour, w *bufio.Writer, hops map[bool]*hop, downs map[bool]module.DeliveryTarget) {
+// hopKey: LMTP?, does the next hop advertise SMTPUTF8? (an IDN recipient of a non-SMTPUTF8 message goes
+// to a hop without SMTPUTF8, so the forwarder has to convert the address for the wire)
+type hopKey struct{ lmtp, utf8 bool }
+
+func runReal(t *testing.T, b Behaviour, w *bufio.Writer, hops map[hopKey]*hop, downs map[hopKey]module.DeliveryTarget) {
 	dir, err := os.MkdirTemp(workDir(), "spool")
 	if err != nil {
 		t.Fatal(err)
@@ -288,9 +317,35 @@ func runReal(t *testing.T, b Behaviour, w *bufio.Writer, hops map[bool]*hop, dow
 	tr := vtrace.New(w, b.ID)
 	tr.Emit("Cfg", vtrace.Ev{"partial": b.Cfg.Partial, "bounce": b.Cfg.Bounce, "nullSender": b.Cfg.NullSender,
 		"mt": b.Cfg.Mt, "list": b.Cfg.List, "rw": []string{}, "utf8": b.Cfg.Utf8, "chain": false,
-		"idn": b.Cfg.Idn, "errtext": "", "real": true})
-	h := hops[b.Cfg.Partial]
+		"idn": b.Cfg.Idn, "errtext": "", "real": true, "fwd": b.Cfg.Fwd})
+	hk := hopKey{b.Cfg.Partial && b.Cfg.Fwd != "remote", !b.Cfg.Idn || b.Cfg.Utf8}
+	h := hops[hk]
 	h.set(tr, PlanOf(b.Hist), idOf)
+	h.mu.Lock()
+	h.na = b.Cfg.Fwd == "remote"
+	h.mu.Unlock()
+	var tgt module.DeliveryTarget = downs[hk]
+	if b.Cfg.Fwd == "remote" {
+		// the real remote-MX target: MX lookup through a mock resolver, every dial lands on the hop
+		rt := remote.VerifRemoteNewTarget(remote.VerifRemoteConfig{
+			Hostname: "mx.example.org",
+			Resolver: &mockdns.Resolver{Zones: map[string]mockdns.Zone{
+				"example.org.":           {MX: []net.MX{{Host: "hop.example.org.", Pref: 10}}},
+				"xn--e1afmkfd.example.":  {MX: []net.MX{{Host: "hop.example.org.", Pref: 10}}},
+				"пример.example.":        {MX: []net.MX{{Host: "hop.example.org.", Pref: 10}}},
+				"hop.example.org.":       {A: []string{"127.0.0.1"}},
+			}},
+			Dialer: func(ctx context.Context, network, _ string) (net.Conn, error) {
+				var d net.Dialer
+				return d.DialContext(ctx, "tcp4", h.l.Addr().String())
+			},
+			Pool: pool.Config{MaxKeys: 100, MaxConnsPerKey: 5, MaxConnLifetimeSec: 150, StaleKeyLifetimeSec: 300},
+			ConnReuseLimit: 1, ConnectTimeout: 30 * time.Second, CommandTimeout: 30 * time.Second,
+			SubmissionTimeout: 30 * time.Second, Log: log.Logger{Out: log.NopOutput{}},
+		})
+		defer rt.Close()
+		tgt = rt
+	}
 	from := "sender@example.com"
 	if b.Cfg.NullSender {
 		from = ""
@@ -300,7 +355,7 @@ func runReal(t *testing.T, b Behaviour, w *bufio.Writer, hops map[bool]*hop, dow
 		bounce = &scripted.Bounce{Tr: tr, ID: reportID, Sender: from, OrigSubject: "verif-subject-" + itoa(b.ID)}
 	}
 	q, err := queue.VerifNewQueue(queue.VerifConfig{
-		Location: dir, Target: downs[b.Cfg.Partial], Bounce: bounce, MaxTries: b.Cfg.Mt, MaxParallelism: 1,
+		Location: dir, Target: tgt, Bounce: bounce, MaxTries: b.Cfg.Mt, MaxParallelism: 1,
 		InitialRetryTime: time.Millisecond, RetryTimeScale: 1, PostInitDelay: 0,
 		Hostname: "mx.example.org", AutogenMsgDomain: "example.org", Log: log.Logger{Out: log.NopOutput{}},
 	})
@@ -385,16 +440,18 @@ func TestReplayReal(t *testing.T) {
 	defer of.Close()
 	w := bufio.NewWriter(of)
 	defer w.Flush()
-	hops := map[bool]*hop{}
-	downs := map[bool]module.DeliveryTarget{}
+	hops := map[hopKey]*hop{}
+	downs := map[hopKey]module.DeliveryTarget{}
 	for _, lmtp := range []bool{false, true} {
-		h, err := newHop(lmtp, true)
-		if err != nil {
-			t.Fatal(err)
+		for _, utf8 := range []bool{false, true} {
+			h, err := newHop(lmtp, utf8)
+			if err != nil {
+				t.Fatal(err)
+			}
+			defer h.l.Close()
+			hops[hopKey{lmtp, utf8}] = h
+			downs[hopKey{lmtp, utf8}] = mkDown(t, lmtp, h.l.Addr().String())
 		}
-		defer h.l.Close()
-		hops[lmtp] = h
-		downs[lmtp] = mkDown(t, lmtp, h.l.Addr().String())
 	}
 	sc := bufio.NewScanner(f)
 	sc.Buffer(make([]byte, 1<<20), 1<<26)
